@@ -41,6 +41,10 @@ def random_spec(rng, big=False):
         # a lone send/receive pair early (a group that can never be judged complete) and a complete group more
         # than 20 s of trace time later: flow detection drops the stale group in-stream (crosses 2^32 wraps)
         "stale": rng.random() < 0.3,
+        # every device event of a rank reports the same accumulated charge: all derived power samples are exactly 0 W
+        "flat_power": rng.random() < 0.2,
+        # the trace also holds host slices at the very origin of the time axis (ts == 0 as int and as float)
+        "origin": rng.random() < 0.3,
     }
 
 
@@ -93,6 +97,10 @@ def build(spec):
                 t0 += 8
             t_end = t0
         pairs = list(rk.events)
+        if spec.get("flat_power"):
+            for (b, e) in pairs:
+                if "attr" in b and "Power" in b["attr"]:
+                    b["attr"]["Power"] = "123456"         # b and e share the attr dict
         for (b, e) in pairs:
             a = b.get("attr") or b.get("args")
             a["usr_note"] = f"n{r}"
@@ -130,6 +138,10 @@ def build(spec):
             host("zero_dur", 503, 400.0, 400.0)
             host("neg_dur", 503, 410.0, 409.0)
             host("zero_dur_x", 503, 420.0, 420.0, x_form=True)
+        if spec.get("origin"):
+            host("origin_x", 506, 0.0 - HOST_EPOCH, 0.5 - HOST_EPOCH, x_form=True)           # ts == 0, dur 0.5
+            pairs[-1][0]["ts"] = 0                                                            # an integer zero
+            host("origin_be", 507, 0.0 - HOST_EPOCH, 0.25 - HOST_EPOCH)                       # B at 0.0, E at 0.25
         # back-to-back chain on one lane: each slice starts exactly where the previous one ends (no overlap at all)
         if spec.get("chain", True):
             t0 = 460.0
